@@ -2,13 +2,23 @@
 
 use crate::mon::Ctx;
 
+pub mod c09;
+pub mod c10;
+pub mod c11;
 pub mod c19;
+pub mod c20;
 pub mod selftest;
 
 pub fn run(id: &str, ctx: &mut Ctx) -> bool {
     match id {
         "SELF" => selftest::run(ctx),
+        "C09" => c09::run(ctx),
+        "C10" => c10::run(ctx),
+        "C11" => c11::run(ctx),
+        "C10REPRO" => c10::repro(ctx),
+        "C11REPRO" => c11::repro(ctx),
         "C19" => c19::run(ctx),
+        "C20" => c20::run(ctx),
         _ => return false,
     }
     true
